@@ -182,4 +182,86 @@ static void op_dim_cells(const VhLine *l) {
     free(m);
 }
 
-const VhOp vh_dim_ops[] = {{"dim.pack", op_dim_pack}, {"dim.pair", op_dim_pair}, {"dim.cells", op_dim_cells}, {NULL, NULL}};
+/* dim.far rows=<r> cols=<c> [w=<entry bytes>]: a matrix whose column count needs the top bit of its width
+ * (e.g. a 4-byte count >= 2^31), laid over a lazily committed anonymous mapping: only the touched pages are ever
+ * backed. Cells of rows > 0 (their position is computed from the column count READ FROM THE HEADER) are set,
+ * read, toggled; the bit/byte the cell really occupies is inspected directly, and the cells a wrongly computed
+ * position would alias are checked to be untouched (C10). */
+#include <sys/mman.h>
+static void op_dim_far(const VhLine *l) {
+    uint64_t rows = p_u64(kw(l, "rows")), cols = p_u64(kw(l, "cols"));
+    int w = kw(l, "w") ? (int)p_u64(kw(l, "w")) : 0;
+    if (rows < 2 || cols < 2) {
+        out("bad-dim");
+        return;
+    }
+    uint8_t hdr[32];
+    memset(hdr, 0, sizeof(hdr));
+    varintDimensionPair dim = varintDimensionPairEncode(hdr, (size_t)rows, (size_t)cols);
+    size_t hl = (size_t)VARINT_DIMENSION_PAIR_BYTE_LENGTH(dim);
+    unsigned __int128 cells = (unsigned __int128)rows * cols;
+    unsigned __int128 need = w ? cells * (unsigned)w : (cells + 7) / 8;
+    if (need > ((unsigned __int128)1 << 36)) {
+        out("bad-dim");
+        return;
+    }
+    size_t bytes = hl + (size_t)need + 8192;
+    uint8_t *raw = mmap(NULL, bytes, PROT_READ | PROT_WRITE, MAP_PRIVATE | MAP_ANONYMOUS | MAP_NORESERVE, -1, 0);
+    if (raw == MAP_FAILED) {
+        out("far=skipped-no-mapping");
+        return;
+    }
+    memcpy(raw, hdr, hl);
+    uint64_t rr[3] = {1, rows - 1, rows / 2 ? rows / 2 : 1};
+    uint64_t cc[4] = {0, 1, cols - 1, cols / 2};
+    int bad = 0;
+    for (int a = 0; a < 3 && !bad; a++) {
+        for (int b = 0; b < 4 && !bad; b++) {
+            uint64_t r = rr[a], c = cc[b];
+            uint64_t idx = r * cols + c;
+            if (w == 0) {
+                uint8_t *cell = raw + hl + idx / 8;
+                unsigned bit = (unsigned)(idx % 8);
+                varintDimensionPairEntrySetBit(raw, (size_t)r, (size_t)c, true, dim);
+                if (!((*cell >> bit) & 1)) {
+                    mon("C10", "bit cell (%" PRIu64 ",%" PRIu64 ") of a %" PRIu64 " x %" PRIu64 " matrix: SetBit did not set the cell's bit (index %" PRIu64 "): the write went elsewhere", r, c, rows, cols, idx);
+                    bad = 1;
+                }
+                if (!varintDimensionPairEntryGetBit(raw, (size_t)r, (size_t)c, dim)) {
+                    mon("C10", "bit cell (%" PRIu64 ",%" PRIu64 "): GetBit after SetBit(true) is false", r, c);
+                    bad = 1;
+                }
+                /* cells a truncated / sign-extended column count would alias */
+                if (varintDimensionPairEntryGetBit(raw, 0, (size_t)(c ? c - 1 : 2), dim) && !(r == 1 && 0)) {
+                    mon("C10", "bit cell (%" PRIu64 ",%" PRIu64 "): writing it set a cell of row 0", r, c);
+                    bad = 1;
+                }
+                bool prev = varintDimensionPairEntryToggleBit(raw, (size_t)r, (size_t)c, dim);
+                if (!prev || ((*cell >> bit) & 1)) {
+                    mon("C10", "bit cell (%" PRIu64 ",%" PRIu64 "): Toggle returned %d and left the cell's bit %d", r, c, (int)prev, (int)((*cell >> bit) & 1));
+                    bad = 1;
+                }
+            } else {
+                uint8_t *cell = raw + hl + idx * (uint64_t)w;
+                uint64_t v = 0xA7C3E19B5D2F4681ULL & (w >= 8 ? ~0ULL : ((1ULL << (8 * w)) - 1));
+                varintDimensionPairEntrySetUnsigned(raw, (size_t)r, (size_t)c, v, (varintWidth)w, dim);
+                uint64_t direct = 0;
+                memcpy(&direct, cell, (size_t)w);
+                uint64_t g = varintDimensionPairEntryGetUnsigned(raw, (size_t)r, (size_t)c, (varintWidth)w, dim);
+                if (direct != v || g != v) {
+                    mon("C10", "cell (%" PRIu64 ",%" PRIu64 ") of a %" PRIu64 " x %" PRIu64 " matrix of %d-byte entries: wrote %" PRIx64 ", the cell's bytes hold %" PRIx64 ", Get returns %" PRIx64, r, c, rows, cols, w, v, direct, g);
+                    bad = 1;
+                }
+                varintDimensionPairEntrySetUnsigned(raw, (size_t)r, (size_t)c, 0, (varintWidth)w, dim);
+            }
+            if (memcmp(raw, hdr, hl) != 0) {
+                mon("C10", "cell (%" PRIu64 ",%" PRIu64 "): the header changed", r, c);
+                bad = 1;
+            }
+        }
+    }
+    munmap(raw, bytes);
+    out("far=done");
+}
+
+const VhOp vh_dim_ops[] = {{"dim.pack", op_dim_pack}, {"dim.pair", op_dim_pair}, {"dim.cells", op_dim_cells}, {"dim.far", op_dim_far}, {NULL, NULL}};
